@@ -1,6 +1,6 @@
 """C09 / C10 rules over storage/rdb.rs: writer/reader table agreement and save discipline."""
 import re
-from facts import callee, op_local, op_place, op_is_const, const_int, const_bytes
+from facts import callee, op_local, op_place, op_is_const, const_int, const_bytes, AnchorMissing
 import cfg, shared, prov
 from shared import ENGINE
 
@@ -1028,3 +1028,71 @@ def rule_shape_siblings(ctx, R):
                               fn.split("::")[-1], v, rseq, rloops, wseq2, wloops), b.loc(regs[0][0]))
     R.inst("storage::rdb::RdbReader", "reader-functions-scanned-for-type-dispatch", {"functions": nf, "typed_arms_compared": n})
     R.floor("reader_functions_scanned", nf)
+
+
+# ---- R-RDB-CARRY ------------------------------------------------------------------------------------
+def rule_carry(ctx, R):
+    """per-record state of the loader must not leak into the next record: a field of the reader
+    that carries a value from one record of the file to the code that consumes it (an expiry
+    waiting for its key) is reset on every successful exit of the function that consumes it"""
+    adt = ctx.prog.adts.get("storage::rdb::RdbReader")
+    if adt is None:
+        raise AnchorMissing("ADT not found: storage::rdb::RdbReader")
+    fields = {f[0]: f[1] for f in adt["variants"][0]["f"]}
+    carried = {n for n, ty in fields.items() if re.search(r"^(std::option::Option<|u8$|u16$|u32$|u64$|usize$|i64$|bool$|std::time::)", ty)}
+    n = 0
+    bodies = {fn: b for fn, b in ctx.prog.bodies.items() if fn.startswith(RD) and "::tests::" not in fn}
+    for f in sorted(carried):
+        fq = "storage::rdb::RdbReader." + f
+        def has_f(pl):
+            return pl is not None and any(isinstance(e, dict) and e.get("f") == fq for e in pl["p"])
+        setters = {}; readers = {}; resets = {}
+        for fn, b in bodies.items():
+            for i, bb in enumerate(b.bbs):
+                if bb.get("cleanup"):
+                    continue
+                for st in bb["s"]:
+                    if st["k"] != "=":
+                        continue
+                    r = st["r"]
+                    if has_f(st["l"]):
+                        const_reset = (r["k"] == "use" and op_is_const(r["o"])) or (r["k"] == "agg" and r["a"].endswith("Option::None"))
+                        if not const_reset and r["k"] == "use":
+                            Pv = prov.operand_origins(b, r["o"])
+                            const_reset = bool(Pv.roots) and all(rt[0] == "const" or (rt[0] == "agg" and rt[1].endswith("Option::None")) for rt in Pv.roots)
+                        (resets if const_reset else setters).setdefault(fn, []).append(i)
+                    else:
+                        pls = []
+                        if r["k"] in ("use", "cast") and not op_is_const(r["o"]):
+                            pls.append(op_place(r["o"]))
+                        elif r["k"] in ("ref", "discr"):
+                            pls.append(r["p"])
+                        if any(has_f(pl) for pl in pls):
+                            # a `&mut self.f` handed to take()/replace() is a reset, not a read
+                            readers.setdefault(fn, []).append(i)
+                t = bb["t"]
+                if t["k"] == "call" and re.search(r"Option::<.*>::take$|^std::mem::(take|replace)::<", t["f"] or "") and t["a"] and not op_is_const(t["a"][0]):
+                    P = prov.operand_origins(b, t["a"][0])
+                    if fq in P.fields:
+                        resets.setdefault(fn, []).append(i)
+        if not setters or not readers:
+            continue
+        for fn in sorted(readers):
+            b = bodies[fn]
+            if b.kind == "Closure":
+                continue
+            n += 1
+            oks = [x for x, bb in enumerate(b.bbs) if any(st["k"] == "=" and st["l"]["l"] == 0 and not st["l"]["p"] and st["r"]["k"] == "agg" and st["r"]["a"].endswith("Result::Ok") for st in bb["s"])]
+            targets = oks or b.exits()
+            rs = set(resets.get(fn, []))
+            # a reset that only feeds the read (take) counts; reads that ARE resets are fine
+            p = cfg.path_avoiding(b, [0], targets, rs)
+            leaks = p is not None and any(x in cfg.fwd(b, [0]) for x in readers[fn])
+            R.inst(fn, "carried:" + f, {"field": f, "consumer": fn, "set_in": sorted(s_.split("::")[-1] for s_ in setters), "reset_on_every_successful_exit": not leaks})
+            if leaks:
+                R.finding(fn, "carried:%s:not-reset-on-every-exit" % f,
+                          "%s consumes the loader's per-record state `%s` (set in %s) but can return successfully (line %d) without resetting it: the next record of the file inherits it -- a key without TTL gets the previous key's deadline" % (
+                              fn.split("::")[-1], f, ", ".join(sorted(s_.split("::")[-1] for s_ in setters)), b.bb_line(p[-1])), b.loc(p[-1]),
+                          ["bb%d line %d" % (x, b.bb_line(x)) for x in p][-8:])
+    R.note("reader fields carrying per-record state between functions: %d consumer(s) (0 while expiries are passed as arguments)" % n)
+    R.trivial()
